@@ -5,7 +5,8 @@
    result (Satisfied / Dissatisfied) describes the concrete value left.
    Side conditions: the input is not final (BIP65) and the transaction version is >= 2
    (BIP112) -- without them the statement is false (InterpRefuted.v).
-   Covered: every fragment except thresh and the multisig leaves (see [icover]). *)
+   Covered: every fragment except sortedmulti / sortedmulti_a, which the decoder never produces
+   and which the interpreter would evaluate with the keys unsorted (see [icover]). *)
 From Verif Require Import Exec Ser Ast Types TypeCheck ExecLemmas TheoremA InterpModel InterpRefine.
 From Coq Require Import Lia.
 Local Open Scope N_scope.
@@ -27,6 +28,8 @@ Section InterpSound.
   (* keys: the script's keys are acceptable encodings; a pushed key the interpreter can parse is *)
   Hypothesis Hkey : forall k, e_keyok e (kb ke k) = true.
   Hypothesis Hkp : forall b, kp b = true -> e_keyok e b = true.
+  (* an empty signature never verifies *)
+  Hypothesis Hsig_empty : forall k, e_sigok e k [] = false.
 
   (* stack elements as the interpreter builds them from bytes, of a size a script number can hold *)
   Definition okelem (x : elem) : Prop :=
@@ -45,13 +48,15 @@ Section InterpSound.
     | MThresh k xs =>
       1 <= k <= N.of_nat (length xs) /\ (length xs < 1000)%nat /\
       (fix go (l : list ms) : Prop := match l with [] => True | x :: r => iwf x /\ go r end) xs
+    | MMultiA k ks => e_sv e = SvTapscript /\ 1 <= k <= N.of_nat (length ks) /\ (length ks < 1000)%nat
+    | MMulti k ks => e_sv e <> SvTapscript /\ 1 <= k <= N.of_nat (length ks) /\ (length ks <= 20)%nat
     | _ => True
     end.
 
   (* fragments covered by this file *)
   Fixpoint icover (m : ms) : Prop :=
     match m with
-    | MMulti _ _ | MSortedMulti _ _ | MMultiA _ _ | MSortedMultiA _ _ => False
+    | MSortedMulti _ _ | MSortedMultiA _ _ => False
     | MThresh _ xs => (fix go (l : list ms) : Prop := match l with [] => True | x :: r => icover x /\ go r end) xs
     | MAlt x | MSwap x | MCheck x | MDupIf x | MVerify x | MNonZero x | MZeroNotEqual x => icover x
     | MAndV x y | MAndB x y | MOrB x y | MOrD x y | MOrC x y | MOrI x y => icover x /\ icover y
@@ -730,6 +735,210 @@ Section InterpSound.
     rewrite enc_thresh, exec_app, C_app, <- app_assoc, Hr1. cbn [bind]. rewrite N.add_0_l in Hr2. exact Hr2.
   Qed.
 
+  (* ---------------------------------------------------------------- multi_a *)
+  Definition ma_tail (l : list key) : script :=
+    flat_map (fun key => [IPush (kb ke key); IOp OP_CHECKSIGADD]) l.
+
+  Lemma s_multi_a_loop k l : e_sv e = SvTapscript ->
+    forall ns st st' cs, Forall okelem st -> multi_a_loop e ke k l ns st = XOk st' cs ->
+      (Z.of_N ns + Z.of_nat (length l) < 2147483648)%Z -> (0 <= Z.of_N k < 2147483648)%Z ->
+      exists w r x, st = w ++ r /\ st' = x :: r /\
+        forall rest al, exists v,
+          exec e (ma_tail l ++ [push_int (Z.of_N k); IOp OP_NUMEQUAL])
+               (mkSt (num_encode (Z.of_N ns) :: C w ++ rest) al) = Ok (mkSt (v :: rest) al)
+          /\ outrel true x v.
+  Proof.
+    intros Htap. induction l as [|key l' IH]; intros ns st st' cs Hok H Hbound Hk.
+    - cbn [multi_a_loop] in H. inversion H; subst. exists [], st. eexists. split; [reflexivity|]. split; [reflexivity|].
+      intros rest al. exists (bool_bytes (Z.of_N k =? Z.of_N ns)%Z). split.
+      + cbn [ma_tail flat_map app C map]. rewrite exec_cons, exec_push_int'. cbn [bind stk alt].
+        rewrite exec_op_cons. cbn [exec_op stk alt]. rewrite !Hnum4 by (cbn [length] in Hbound; lia). reflexivity.
+      + destruct (N.eqb_spec ns k) as [E|E].
+        * replace (Z.of_N k =? Z.of_N ns)%Z with true by (symmetry; apply Z.eqb_eq; lia). apply outrel_sat1.
+        * replace (Z.of_N k =? Z.of_N ns)%Z with false by (symmetry; apply Z.eqb_neq; lia). apply outrel_dis.
+    - cbn [multi_a_loop] in H. cbn [length] in Hbound. unfold evaluate_pk in H.
+      destruct st as [|[| |s] r0]; try discriminate.
+      + (* empty signature: not counted *)
+        inversion Hok as [|? ? _ Hok0]; subst.
+        destruct (IH ns r0 st' cs Hok0 H ltac:(lia) Hk) as [w [r [x [-> [-> Hp]]]]].
+        exists (EDis :: w), r, x. split; [reflexivity|]. split; [reflexivity|]. intros rest al.
+        destruct (Hp rest al) as [v [Hr Ho]]. exists v. split; [|exact Ho].
+        cbn [ma_tail flat_map app C map conc]. rewrite exec_push, exec_op_cons. cbn [exec_op stk alt].
+        rewrite Htap, Hkey. cbn [negb]. rewrite Hnum4 by lia. cbn [bind]. exact Hr.
+      + destruct (e_sigok e (kb ke key) s) eqn:Es; [|discriminate].
+        apply xbind_ok in H. destruct H as [s1 [c1 [c2 [H1 [Hf _]]]]]. inversion H1; subst.
+        inversion Hok as [|? ? Hs Hok0]; subst. cbn in Hs. destruct Hs as [Hne _].
+        destruct (IH (ns + 1) s1 st' c2 Hok0 Hf ltac:(lia) Hk) as [w [r [x [-> [-> Hp]]]]].
+        exists (EPush s :: w), r, x. split; [reflexivity|]. split; [reflexivity|]. intros rest al.
+        destruct (Hp rest al) as [v [Hr Ho]]. exists v. split; [|exact Ho].
+        cbn [ma_tail flat_map app C map conc]. rewrite exec_push, exec_op_cons. cbn [exec_op stk alt].
+        rewrite Htap, Hkey. cbn [negb]. rewrite Hnum4 by lia.
+        destruct s as [|b0 s']; [congruence|]. rewrite Es. cbn [bind].
+        replace (Z.of_N ns + 1)%Z with (Z.of_N (ns + 1)) by lia. exact Hr.
+  Qed.
+
+  Lemma s_multi_a_gen (m : ms) k ks :
+    enc ke m = (match ks with
+                | [] => []
+                | k0 :: rest => [IPush (kb ke k0); IOp OP_CHECKSIG] ++ ma_tail rest
+                end) ++ [push_int (Z.of_N k); IOp OP_NUMEQUAL] ->
+    (forall st, ev m st = multi_a_loop e ke k ks 0 st) ->
+    e_sv e = SvTapscript -> ks <> [] -> (length ks < 1000)%nat -> k < 2147483648 ->
+    sound m BB true IAny.
+  Proof.
+    intros Henc Hev Htap Hne Hlen Hk st st' cs Hok H. rewrite Hev in H.
+    destruct ks as [|k0 rest]; [congruence|]. cbn [multi_a_loop] in H. cbn [length] in Hlen. unfold evaluate_pk in H.
+    destruct st as [|[| |s] r0]; try discriminate.
+    - inversion Hok as [|? ? _ Hok0]; subst.
+      destruct (s_multi_a_loop k rest Htap 0 r0 st' cs Hok0 H ltac:(lia) ltac:(lia)) as [w [r [x [-> [-> Hp]]]]].
+      exists (EDis :: w), r. split; [reflexivity|]. split; [exact I|]. exists x. split; [reflexivity|]. intros rest0 al.
+      destruct (Hp rest0 al) as [v [Hr Ho]]. exists v. split; [|exact Ho].
+      rewrite Henc. rewrite <- app_assoc. cbn [app C map conc]. rewrite exec_push, exec_op_cons. cbn [exec_op stk alt].
+      rewrite Hkey. cbn [negb bool_bytes bind]. exact Hr.
+    - destruct (e_sigok e (kb ke k0) s) eqn:Es; [|discriminate].
+      apply xbind_ok in H. destruct H as [s1 [c1 [c2 [H1 [Hf _]]]]]. inversion H1; subst.
+      inversion Hok as [|? ? Hs Hok0]; subst. cbn in Hs. destruct Hs as [Hnes _].
+      destruct (s_multi_a_loop k rest Htap 1 s1 st' c2 Hok0 Hf ltac:(lia) ltac:(lia)) as [w [r [x [-> [-> Hp]]]]].
+      exists (EPush s :: w), r. split; [reflexivity|]. split; [exact I|]. exists x. split; [reflexivity|]. intros rest0 al.
+      destruct (Hp rest0 al) as [v [Hr Ho]]. exists v. split; [|exact Ho].
+      rewrite Henc. rewrite <- app_assoc. cbn [app C map conc]. rewrite exec_push, exec_op_cons. cbn [exec_op stk alt].
+      rewrite Hkey. cbn [negb]. destruct s as [|b0 s']; [congruence|]. rewrite Es. cbn [bool_bytes bind]. exact Hr.
+  Qed.
+
+  (* ---------------------------------------------------------------- multi (CHECKMULTISIG) *)
+  Lemma multisig_match_cons kx krest s srest :
+    multisig_match e (kx :: krest) (s :: srest) =
+    if Nat.ltb (length (kx :: krest)) (length (s :: srest)) then false
+    else if e_sigok e kx s then multisig_match e krest srest else multisig_match e krest (s :: srest).
+  Proof. destruct krest as [|k2 kr2]; reflexivity. Qed.
+  Lemma multisig_match_nil_keys s srest : multisig_match e [] (s :: srest) = false.
+  Proof. reflexivity. Qed.
+
+  Lemma multisig_empty_first keys srest : multisig_match e keys ([] :: srest) = false.
+  Proof.
+    induction keys as [|kx krest IH]; [reflexivity|]. rewrite multisig_match_cons.
+    destruct (Nat.ltb _ _); [reflexivity|]. rewrite Hsig_empty. exact IH.
+  Qed.
+
+  (* the abstract loop finds the in-order matching CHECKMULTISIG looks for *)
+  Lemma s_multi_loop k l : forall ns st st' cs, multi_loop e ke k l ns st = XOk st' cs -> ns <= k ->
+    exists sigs r, st = map EPush sigs ++ EDis :: r /\ st' = ESat :: r /\
+      N.of_nat (length sigs) = k - ns /\ (length sigs <= length l)%nat /\
+      multisig_match e (map (kb ke) l) sigs = true.
+  Proof.
+    induction l as [|key l' IH]; intros ns st st' cs H Hns; cbn [multi_loop] in H.
+    - destruct (N.eqb_spec ns k) as [E|E]; [|discriminate]. destruct st as [|[| |b] r]; try discriminate.
+      inversion H; subst. exists [], r. repeat split; cbn; lia.
+    - destruct (N.eqb_spec ns k) as [E|E].
+      + destruct st as [|[| |b] r]; try discriminate. inversion H; subst. exists [], r. repeat split; cbn; lia.
+      + unfold evaluate_multi in H. destruct st as [|[| |s] r0]; try discriminate.
+        destruct (e_sigok e (kb ke key) s) eqn:Es.
+        * apply xbind_ok in H. destruct H as [s1 [c1 [c2 [H1 [Hf _]]]]]. inversion H1; subst.
+          destruct (IH (ns + 1) s1 st' c2 Hf ltac:(lia)) as [sigs [r [-> [-> [Hlen [Hle Hm]]]]]].
+          exists (s :: sigs), r. split; [reflexivity|]. split; [reflexivity|]. cbn [length map].
+          split; [lia|]. split; [lia|]. rewrite multisig_match_cons, Es.
+          destruct (Nat.ltb_spec (length (kb ke key :: map (kb ke) l')) (length (s :: sigs))) as [Hlt|_]; [|exact Hm].
+          cbn [length] in Hlt. rewrite map_length in Hlt. lia.
+        * destruct (IH ns (EPush s :: r0) st' cs H Hns) as [sigs [r [Hst [-> [Hlen [Hle Hm]]]]]].
+          destruct sigs as [|s0 sigs']; [cbn in Hlen; lia|]. cbn [map app] in Hst. inversion Hst; subst s0 r0.
+          exists (s :: sigs'), r. split; [reflexivity|]. split; [reflexivity|]. split; [exact Hlen|]. cbn [length] in *.
+          split; [lia|]. cbn [map]. rewrite multisig_match_cons, Es.
+          destruct (Nat.ltb_spec (length (kb ke key :: map (kb ke) l')) (length (s :: sigs'))) as [Hlt|_]; [|exact Hm].
+          cbn [length] in Hlt. rewrite map_length in Hlt. lia.
+  Qed.
+
+  Lemma take_n_app {A} (a b : list A) : take_n (length a) (a ++ b) = Some (a, b).
+  Proof. induction a as [|x r IH]; cbn; [reflexivity|]. rewrite IH. reflexivity. Qed.
+
+  Lemma exec_pushes (f : key -> bytes) l s st :
+    exec e (map (fun key => IPush (f key)) l ++ s) st = exec e s (mkSt (rev (map f l) ++ stk st) (alt st)).
+  Proof.
+    revert st. induction l as [|x r IH]; intros st; cbn [map app rev].
+    - destruct st; reflexivity.
+    - rewrite exec_push, IH. cbn [stk alt]. rewrite <- app_assoc. reflexivity.
+  Qed.
+
+  (* CHECKMULTISIG on n pushed keys, k, and the stack [sigs ++ [] :: rest] *)
+  Lemma run_multi k ks sigs rest al (okm : bool) : e_sv e <> SvTapscript ->
+    1 <= k <= N.of_nat (length ks) -> (length ks <= 20)%nat -> N.of_nat (length sigs) = k ->
+    multisig_match e (rev (map (kb ke) ks)) sigs = okm ->
+    (okm = false -> forallb (fun sg => match sg with [] => true | _ => false end) sigs = true) ->
+    exec e ([push_int (Z.of_N k)] ++ map (fun key => IPush (kb ke key)) ks
+              ++ [push_int (Z.of_nat (length ks)); IOp OP_CHECKMULTISIG])
+         (mkSt (sigs ++ [] :: rest) al) = Ok (mkSt (bool_bytes okm :: rest) al).
+  Proof.
+    intros Htap Hk Hn Hlen Hm Hempty. cbn [app]. rewrite exec_cons, exec_push_int'. cbn [bind stk alt].
+    rewrite exec_pushes. cbn [stk alt]. rewrite exec_cons, exec_push_int'. cbn [bind stk alt].
+    rewrite exec_op_cons. cbn [exec_op stk alt].
+    assert (Hsv : match e_sv e with SvTapscript => true | _ => false end = false) by (destruct (e_sv e); congruence).
+    destruct (e_sv e); try congruence;
+      (rewrite Hnum4 by lia;
+       replace ((Z.of_nat (length ks) <? 0)%Z || (20 <? Z.of_nat (length ks))%Z) with false
+         by (symmetry; apply orb_false_iff; split; [apply Z.ltb_ge | apply Z.ltb_ge]; lia);
+       rewrite Nat2Z.id;
+       replace (length ks) with (length (rev (map (kb ke) ks))) at 1 by (rewrite rev_length, map_length; reflexivity);
+       rewrite take_n_app; rewrite Hnum4 by lia;
+       replace ((Z.of_N k <? 0)%Z || (Z.of_nat (length ks) <? Z.of_N k)%Z) with false
+         by (symmetry; apply orb_false_iff; split; apply Z.ltb_ge; lia);
+       replace (Z.to_nat (Z.of_N k)) with (length sigs) by lia;
+       rewrite take_n_app;
+       replace (forallb (e_keyok e) (rev (map (kb ke) ks))) with true
+         by (symmetry; apply forallb_forall; intros x Hx; apply in_rev, in_map_iff in Hx; destruct Hx as [kk [<- _]]; apply Hkey);
+       cbn [negb]; rewrite Hm; destruct okm; [reflexivity | rewrite (Hempty eq_refl); reflexivity]).
+  Qed.
+
+  Lemma C_pushes sigs : C (map EPush sigs) = sigs.
+  Proof. unfold C. rewrite map_map. cbn [conc]. apply map_id. Qed.
+
+  Lemma s_multi_gen (m : ms) k ks :
+    enc ke m = [push_int (Z.of_N k)] ++ map (fun key => IPush (kb ke key)) ks
+                 ++ [push_int (Z.of_nat (length ks)); IOp OP_CHECKMULTISIG] ->
+    (forall st, ev m st = multi_eval e ke k ks st) ->
+    e_sv e <> SvTapscript -> 1 <= k <= N.of_nat (length ks) -> (length ks <= 20)%nat ->
+    sound m BB true IAnyNonZero.
+  Proof.
+    intros Henc Hev Htap Hk Hn st st' cs Hok H. rewrite Hev in H. unfold multi_eval in H.
+    destruct (N.ltb_spec (N.of_nat (length st)) (k + 1)) as [Hlt|Hge]; [discriminate|].
+    destruct st as [|a st0]; [cbn in Hge; lia|].
+    assert (Hcase : a = EDis \/ a <> EDis) by (destruct a; [right|left|right]; congruence || reflexivity).
+    destruct Hcase as [-> | Hna].
+    - (* all-empty dissatisfaction *)
+      destruct (forallb is_dis (firstn (N.to_nat (k + 1)) (EDis :: st0))) eqn:Ef; [|discriminate].
+      inversion H; subst.
+      set (w := firstn (N.to_nat (k + 1)) (EDis :: st0)) in *.
+      set (r := skipn (N.to_nat (k + 1)) (EDis :: st0)).
+      exists w, r. split; [symmetry; apply firstn_skipn|]. split.
+      { cbn [shapeI]. unfold w. replace (N.to_nat (k + 1)) with (S (N.to_nat k)) by lia. discriminate. }
+      exists EDis. split; [reflexivity|]. intros rest al. exists []. split; [|apply outrel_dis].
+      assert (Hw : C w = repeat [] (N.to_nat k) ++ [[]]).
+      { assert (Hl : length w = S (N.to_nat k)).
+        { unfold w. rewrite firstn_length. cbn [length] in *. lia. }
+        assert (Hall : forall x, In x w -> x = EDis).
+        { intros x Hx. rewrite forallb_forall in Ef. specialize (Ef x Hx). destruct x; try discriminate. reflexivity. }
+        clearbody w. clear -Hl Hall. revert Hl. generalize (N.to_nat k) as j. induction w as [|x w' IH]; intros j Hl; [discriminate|].
+        cbn [length] in Hl. rewrite (Hall x (or_introl eq_refl)). cbn [C map conc].
+        destruct j as [|j'].
+        - destruct w'; [reflexivity | discriminate].
+        - cbn [repeat app]. f_equal. apply IH; [intros y Hy; apply Hall; right; exact Hy | lia]. }
+      rewrite Hw, <- app_assoc. cbn [app]. rewrite Henc.
+      apply (run_multi k ks (repeat [] (N.to_nat k)) rest al false Htap Hk Hn).
+      + rewrite repeat_length. lia.
+      + destruct (N.to_nat k) eqn:Ek; [lia|]. cbn [repeat]. apply multisig_empty_first.
+      + intros _. apply forallb_forall. intros x Hx. apply repeat_spec in Hx. subst. reflexivity.
+    - assert (Hloop : multi_loop e ke k (rev ks) 0 (a :: st0) = XOk st' cs).
+      { destruct (rev ks) as [|key l'] eqn:Er.
+        - destruct a; try congruence; discriminate.
+        - cbn [multi_loop]. destruct (N.eqb_spec 0 k) as [E|_]; [lia|].
+          destruct a; try congruence; exact H. }
+      destruct (s_multi_loop k (rev ks) 0 (a :: st0) st' cs Hloop ltac:(lia)) as [sigs [r [Hst [-> [Hlen [_ Hm]]]]]].
+      exists (map EPush sigs ++ [EDis]), r. split; [rewrite <- app_assoc; exact Hst|]. split.
+      { cbn [shapeI]. destruct sigs; discriminate. }
+      exists ESat. split; [reflexivity|]. intros rest al. exists [1]. split; [|apply outrel_sat1].
+      rewrite C_app, C_pushes, <- app_assoc. cbn [C map conc app]. rewrite Henc.
+      apply (run_multi k ks sigs rest al true Htap Hk Hn); [lia | | discriminate].
+      rewrite <- map_rev. exact Hm.
+  Qed.
+
   (* ---------------------------------------------------------------- typing dispatch *)
   Definition isound (m : ms) (t : ty) : Prop :=
     sound m (c_base (t_corr t)) (c_unit (t_corr t)) (c_input (t_corr t)).
@@ -949,6 +1158,14 @@ Section InterpSound.
     - apply i_or_c; assumption.
     - apply i_or_i; assumption.
     - apply i_thresh; assumption.
+    - intros t Ht Hwf _. inversion Ht; subst. cbn [iwf] in Hwf. destruct Hwf as [Htap [Hk Hn]].
+      unfold isound. cbn [t_multi t_corr c_multi c_base c_unit c_input].
+      apply (s_multi_gen (MMulti k ks) k ks); try reflexivity; assumption.
+    - intros t Ht Hwf _. inversion Ht; subst. cbn [iwf] in Hwf. destruct Hwf as [Htap [Hk Hn]].
+      unfold isound. cbn [t_multi_a t_corr c_multi_a c_base c_unit c_input].
+      apply (s_multi_a_gen (MMultiA k ks) k ks); try reflexivity; try assumption.
+      + destruct ks; [cbn in Hk; lia | discriminate].
+      + lia.
   Qed.
 
   (* the witness-script form: the recursive evaluator accepting implies the script accepts *)
